@@ -263,6 +263,9 @@ func TestC06(t *testing.T) {
 			w.Close()
 		}
 	}
+	for _, driver := range vlib.Drivers() {
+		c06ManyRefusals(ev, driver)
+	}
 	finish(t, ev)
 }
 
